@@ -34,7 +34,7 @@ type Item struct {
 	Name   string            // Lean name (inside namespace Moc.Gen)
 	File   string            // path relative to the repo root
 	Func   string            // "Recv.Method" or "Func" ("" for package-level const/var)
-	Sel    string            // selector: "if:N" | "return:N" | "const:NAME" | "elseif:N" | "case:N:M" | "regexp:VAR" | "sqlconst:NAME:REGEX" | "callarg:FN:N:ARG" | "bodytext"
+	Sel    string            // selector: "if:N" | "return:N" | "const:NAME" | "elseif:N" | "case:N:M" | "regexp:VAR" | "sqlconst:NAME:REGEX" | "callarg:FN:N:ARG" | "bodytext" | "sites"
 	Params string            // Lean binder text, e.g. "(createdAt since : Int)"
 	Type   string            // Lean result type: Bool | Int | String | Nat
 	Rename map[string]string // Go source text of a sub-expression -> Lean text
@@ -322,6 +322,10 @@ func extract(repo string, it Item) (sourceTxt, lean string, err error) {
 		return "", "", fmt.Errorf("const %s not found", parts[1])
 	}
 
+	if it.Sel == "sites" {
+		t := sitesOf(f)
+		return fmt.Sprintf("%d sites", strings.Count(t, "\n(")+1), t, nil
+	}
 	fd := findFunc(f, it.Func)
 	if fd == nil {
 		return "", "", fmt.Errorf("function %s not found in %s", it.Func, it.File)
@@ -480,6 +484,134 @@ func extract(repo string, it Item) (sourceTxt, lean string, err error) {
 	}
 	s, err := x.expr(e)
 	return norm(src(e)), s, err
+}
+
+// sitesOf lists every channel operation of a file: (function, kind, guard, normalised text).
+// kind: select | send | recv | range ; guard: ctxDone (a case receives from a Done() channel, or the operation is
+// itself a receive from one), default (non-blocking select), none.
+func sitesOf(f *ast.File) string {
+	var rows []string
+	for _, d := range f.Decls {
+		fd, ok := d.(*ast.FuncDecl)
+		if !ok || fd.Body == nil {
+			continue
+		}
+		name := fd.Name.Name
+		if fd.Recv != nil && len(fd.Recv.List) > 0 {
+			t := norm(src(fd.Recv.List[0].Type))
+			t = strings.TrimPrefix(t, "*")
+			if i := strings.Index(t, "["); i >= 0 {
+				t = t[:i]
+			}
+			name = t + "." + name
+		}
+		chans := map[string]bool{}
+		if fd.Type.Params != nil {
+			for _, p := range fd.Type.Params.List {
+				if _, ok := p.Type.(*ast.ChanType); ok {
+					for _, n := range p.Names {
+						chans[n.Name] = true
+					}
+				}
+			}
+		}
+		ast.Inspect(fd.Body, func(n ast.Node) bool {
+			if as, ok := n.(*ast.AssignStmt); ok && len(as.Lhs) == 1 && len(as.Rhs) == 1 {
+				if c, ok := as.Rhs[0].(*ast.CallExpr); ok {
+					if id, ok := c.Fun.(*ast.Ident); ok && id.Name == "make" && len(c.Args) > 0 {
+						if _, ok := c.Args[0].(*ast.ChanType); ok {
+							chans[norm(src(as.Lhs[0]))] = true
+						}
+					}
+				}
+			}
+			return true
+		})
+		isDone := func(e ast.Expr) bool {
+			u, ok := e.(*ast.UnaryExpr)
+			return ok && u.Op == token.ARROW && strings.HasSuffix(norm(src(u.X)), ".Done()")
+		}
+		add := func(kind, guard string, n ast.Node) {
+			t := norm(src(n))
+			if len(t) > 160 {
+				t = t[:160]
+			}
+			rows = append(rows, fmt.Sprintf("(%s, %s, %s, %s)", leanString(name), leanString(kind), leanString(guard), leanString(t)))
+		}
+		var walk func(n ast.Node)
+		walk = func(n ast.Node) {
+			ast.Inspect(n, func(n ast.Node) bool {
+				switch x := n.(type) {
+				case *ast.SelectStmt:
+					guard := "none"
+					for _, c := range x.Body.List {
+						cc := c.(*ast.CommClause)
+						if cc.Comm == nil {
+							if guard == "none" {
+								guard = "default"
+							}
+							continue
+						}
+						var e ast.Expr
+						switch cm := cc.Comm.(type) {
+						case *ast.ExprStmt:
+							e = cm.X
+						case *ast.AssignStmt:
+							if len(cm.Rhs) == 1 {
+								e = cm.Rhs[0]
+							}
+						}
+						if e != nil && isDone(e) {
+							guard = "ctxDone"
+						}
+					}
+					hdr := "select {"
+					for _, c := range x.Body.List {
+						cc := c.(*ast.CommClause)
+						if cc.Comm == nil {
+							hdr += " default;"
+						} else {
+							hdr += " case " + norm(src(cc.Comm)) + ";"
+						}
+					}
+					hdr += " }"
+					t := hdr
+					if len(t) > 200 {
+						t = t[:200]
+					}
+					rows = append(rows, fmt.Sprintf("(%s, %s, %s, %s)", leanString(name), leanString("select"), leanString(guard), leanString(t)))
+					for _, c := range x.Body.List {
+						for _, st := range c.(*ast.CommClause).Body {
+							walk(st)
+						}
+					}
+					return false
+				case *ast.SendStmt:
+					add("send", "none", x)
+				case *ast.UnaryExpr:
+					if x.Op == token.ARROW {
+						if isDone(x) {
+							add("recv", "ctxDone", x)
+						} else {
+							add("recv", "none", x)
+						}
+					}
+				case *ast.RangeStmt:
+					if chans[norm(src(x.X))] {
+						rows = append(rows, fmt.Sprintf("(%s, %s, %s, %s)", leanString(name), leanString("range"), leanString("none"), leanString("for range "+norm(src(x.X)))))
+					}
+				case *ast.FuncLit:
+					// same goroutine or a started one: its operations belong to the enclosing function's list
+				}
+				return true
+			})
+		}
+		walk(fd.Body)
+	}
+	if len(rows) == 0 {
+		return "[]"
+	}
+	return "[" + strings.Join(rows, ",\n") + "]"
 }
 
 func main() {
